@@ -265,6 +265,13 @@ def run(ctx: Ctx) -> None:
         cases.append({"kind": "order", "d": enc(d)})
         if len(str(d)) < 20000:
             cases.append({"kind": "files", "d": enc({k: v for k, v in d.items() if not isinstance(v, float)})})
+    for n in (9, 11, 12, 14, 20):
+        d: dict = {"z": 1, "a": 2, 5: 3}
+        for lvl in range(n):
+            d = {"y": lvl, f"k{lvl}": d, 3: [lvl, {"q": 1, "b": 2}], "b": lvl}       # unsorted on every level, n levels deep
+        cases.append({"kind": "order", "d": enc(d)})
+        if n <= 9:
+            cases.append({"kind": "files", "d": enc(d)})
     for _ in range(ctx.n(300, 3000)):
         cases.append(_sd_case(rng))
     for _ in range(ctx.n(150, 2500)):
